@@ -31,7 +31,7 @@ def _stream_case(tier):
 
 
 def _P(case):
-    return {k: (np.array(v) if isinstance(v, list) and k == 'weights' else v) for k, v in case['P'].items()}
+    return F.revive_params(case['P'])
 
 
 def _bytes(x):
@@ -105,6 +105,7 @@ def _iso_case(tier):
         'spec': st.just(i), 'PA': st.one_of(st.just({}), _param_strategy(i)), 'PB': st.one_of(st.just({}), _param_strategy(i)),
         'histA': history_strategy(20), 'histB': history_strategy(20),
         'frame': st.sampled_from(['NED', 'ENU']), 'dip': gen.fl(-80.0, 80.0), 'np_seed': st.integers(0, 2**31-1),
+        'share_params': st.booleans(),
         'schedule': st.lists(st.sampled_from(['A', 'B', 'A', 'B', 'rebuild_A', 'batch_again']), min_size=2, max_size=40)}))
 
 
@@ -139,8 +140,8 @@ def eval_isolation(case, ctx):
         return
     frame = case['frame'] if case['frame'] in spec.frames else spec.frames[0]
     dip = float(case['dip'])
-    PA = {k: (np.array(v) if isinstance(v, list) and k == 'weights' else v) for k, v in case['PA'].items()}
-    PB = {k: (np.array(v) if isinstance(v, list) and k == 'weights' else v) for k, v in case['PB'].items()}
+    PA = F.revive_params(case['PA'])
+    PB = PA if case.get('share_params', False) else F.revive_params(case['PB'])       # the same settings objects for both instances
     hA, hB = make_history(case['histA']), make_history(case['histB'])
     tag = F.spec_key(spec)
     sched = list(case['schedule'])
